@@ -4,7 +4,7 @@
 From V.lib Require Import Base.
 From V.c07 Require Import C07Model.
 From V.c06 Require Import C06Model C06InitModel C06StructProofs C06CencProofs C06CbcsProofs C06SampleProofs C06InitProofs C06FragModel C06FragProofs.
-From V.c06 Require Import C06SencModel C06SencProofs C06SencAuxProofs.
+From V.c06 Require Import C06SencModel C06SencProofs C06SencAuxProofs C06TrexModel C06TrexProofs.
 
 (* cenc: crypting twice with the same key, IV and sub-sample map restores the sample — for EVERY block function
    E, every map (empty = whole sample, partial last block, clear runs > 65535, even overlapping or wrapping
@@ -220,6 +220,68 @@ Theorem C06_mixed_subsamples_refuted :
 Proof. exact mixed_subsamples_refuted. Qed.
 Print Assumptions C06_mixed_subsamples_refuted.
 
+(* ---------------------------------------------------------------- sample location (trex) and whole files *)
+(* the trex is a parameter of BOTH sides: EncryptFragment finds the samples with ipd.Trex, DecryptFragment with the
+   track's trex of the decrypted init.  When they agree, the whole mdat payload is restored (sizes per sample in
+   trun, from tfhd.default_sample_size or only from trex.default_sample_size; bytes behind the last sample are
+   untouched) *)
+Theorem C06_fragment_roundtrip_trex_cenc :
+  forall (E D : list N -> list N -> list N) (protfunc : list N -> res (list ssp))
+         key iv constiv cb sb start mdat_hdr ids trex_e trex_d f e pl,
+  trex_d = trex_e ->
+  clean_moof (pf_children f) = true -> nr_trafs (pf_children f) = 1%nat ->
+  encrypt_frag_trex E D protfunc Cenc key iv cb sb start mdat_hdr ids trex_e f = Ok (e, pl) ->
+  decrypt_frag_trex E D Cenc key constiv cb sb trex_d (pf_sizing f) e pl
+  = Ok (layout start (pf_children f) mdat_hdr, pf_payload f).
+Proof. exact trex_roundtrip_cenc. Qed.
+Print Assumptions C06_fragment_roundtrip_trex_cenc.
+
+(* any scheme (cbcs): the same from the fragment round trip and "encryption keeps every sample length" *)
+Theorem C06_fragment_roundtrip_trex_generic :
+  forall (E D : list N -> list N -> list N) (protfunc : list N -> res (list ssp))
+         sch key iv constiv cb sb start mdat_hdr ids trex_e trex_d f e pl,
+  sample_sizes trex_d (pf_sizing f) = sample_sizes trex_e (pf_sizing f) ->
+  (forall samples e0, encrypt_frag E D protfunc sch key iv cb sb start mdat_hdr ids (mkC (pf_children f) samples) = Ok e0 ->
+     decrypt_frag E D sch key constiv cb sb e0 = Ok (layout start (pf_children f) mdat_hdr, samples) /\
+     map (@length N) (ef_data e0) = map (@length N) samples) ->
+  encrypt_frag_trex E D protfunc sch key iv cb sb start mdat_hdr ids trex_e f = Ok (e, pl) ->
+  decrypt_frag_trex E D sch key constiv cb sb trex_d (pf_sizing f) e pl
+  = Ok (layout start (pf_children f) mdat_hdr, pf_payload f).
+Proof. exact trex_roundtrip_generic. Qed.
+Print Assumptions C06_fragment_roundtrip_trex_generic.
+
+(* and the statement is false when they differ: EncryptFragment with a nil trex on a fragment whose sizes come
+   only from trex.default_sample_size encrypts nothing (payload unchanged, senc/saiz/saio written all the same),
+   DecryptFragment with the real trex then runs the cipher over clear payload *)
+Theorem C06_trex_mismatch_refuted :
+  let E := fun (_ _ : list N) => repeat 1 16 in
+  let f := mkP [MOther 16 1; MTraf [mkT TOther 16 2; mkT TTrun 20 3]] (mkSizing 2 None None) [10; 20; 30; 40; 50; 60; 70; 80] in
+  exists e pl out,
+    encrypt_frag_trex E E (fun _ => Ok []) Cenc (repeat 3 16) (repeat 0 16) 0 0 100 8 50 None f = Ok (e, pl) /\
+    pl = pf_payload f /\
+    decrypt_frag_trex E E Cenc (repeat 3 16) [] 0 0 (Some 4) (pf_sizing f) e pl = Ok out /\
+    snd out <> pf_payload f.
+Proof. exact trex_mismatch_refuted. Qed.
+Print Assumptions C06_trex_mismatch_refuted.
+
+(* whole files, any number of fragments (induction over the fragment list): mp4ff-encrypt encrypts every fragment
+   with the same IV and writes them one after the other; fragment i of the encrypted file starts where the clear
+   one would plus the bytes added to the moofs of fragments 0..i-1 (enc_positions); mp4ff-decrypt decrypts every
+   fragment in place (moof start unchanged, data offset and mdat position back to the clear values relative to
+   it), and re-encoding from any position gives exactly the layout of the clear file, with every sample restored.
+   cenc; the sidx of a segment is known finding C06-F3 and not part of the model *)
+Theorem C06_file_roundtrip_cenc :
+  forall (E D : list N -> list N -> list N) (protfunc : list N -> res (list ssp)) key iv constiv cb sb
+         (fs : list (cfrag * N)) start_e ids es,
+  Forall (fun p : cfrag * N => clean_moof (cf_children (fst p)) = true /\ nr_trafs (cf_children (fst p)) = 1%nat) fs ->
+  encrypt_file E D protfunc Cenc key iv cb sb start_e ids fs = Ok es ->
+  exists gs, decrypt_file E D Cenc key constiv cb sb es = Ok gs /\
+    (forall start_c, reencode start_c gs = layout_file start_c fs) /\
+    map (fun g => snd (fst g)) gs = map (fun p => cf_samples (fst p)) fs /\
+    map (fun g => f_moof_start (fst (fst g))) gs = enc_positions start_e fs es.
+Proof. exact file_roundtrip_cenc. Qed.
+Print Assumptions C06_file_roundtrip_cenc.
+
 (* ---------------------------------------------------------------- examples *)
 (* the defect of the pinned tree (fixed by the `fix:` commit): traf{tfhd, tfxd-uuid} lost its uuid box and no
    byte was counted *)
@@ -306,3 +368,15 @@ Example ex_aux_consistent :
   forallb (fun e => lenN e <? 256) (entries_of 16 true encs) = true /\
   match saiz_of saiz_empty encs with Ok z => saiz_sizes z = [30; 24] | _ => False end.
 Proof. vm_compute. repeat split; reflexivity. Qed.
+
+(* a two-fragment file satisfying the hypotheses of C06_file_roundtrip_cenc; the second fragment of the encrypted
+   file starts 17 (saiz) + 20 (saio) + 48 (senc) = 85 bytes later than in the clear file *)
+Example ex_file_roundtrip :
+  let f1 := (mkC [MOther 16 1; MTraf [mkT TOther 16 2; mkT TTrun 40 3]] [repeat 5 20; repeat 6 3], 8) in
+  let f2 := (mkC [MTraf [mkT TOther 16 4; mkT TTrun 28 5; mkT TUuidOther 44 6]] [repeat 7 17], 8) in
+  Forall (fun p : cfrag * N => clean_moof (cf_children (fst p)) = true /\ nr_trafs (cf_children (fst p)) = 1%nat) [f1; f2] /\
+  match encrypt_file ex_E ex_E (fun _ => Ok []) Cenc (repeat 3 16) (repeat 255 8) 0 0 1000 50 [f1; f2] with
+  | Ok es => enc_positions 1000 [f1; f2] es = [1000; 1204] /\ map f_moof_start (layout_file 1000 [f1; f2]) = [1000; 1119]
+  | _ => False
+  end.
+Proof. split; [repeat constructor|]. vm_compute. split; reflexivity. Qed.
